@@ -221,6 +221,12 @@ int main(int argc, char **argv) {
   for (int i = 1; i + 1 < argc; ++i) if (std::string(argv[i]) == "--freeze-large") return FreezeLarge(argv[i + 1]);
   for (int i = 1; i < argc; ++i) {
     if (std::string(argv[i]) == "--freeze" && i + 2 < argc) return Freeze(argv[i + 1], atoi(argv[i + 2]));
+    if (std::string(argv[i]) == "--digest" && i + 1 < argc) {  // (maintenance) prints "<basename> <digest>" for one stream file
+      std::string b = ReadFile(argv[i + 1]); Status st; std::string d = DecodeDigest(b, 0, &st);
+      std::string n = argv[i + 1]; n = n.substr(n.rfind('/') + 1);
+      printf("%s %s\n", n.c_str(), st.ok() ? d.c_str() : "undecodable");
+      return st.ok() ? 0 : 1;
+    }
     if (std::string(argv[i]) == "--legacy-digests" && i + 1 < argc) {
       std::ofstream dg(argv[i + 1]);
       for (auto &n : ListDrc(vf::RepoRoot() + "/testdata")) { std::string b = ReadFile(vf::RepoRoot() + "/testdata/" + n); if (b.empty()) continue; Status st; std::string d = DecodeDigest(b, 0, &st); dg << n << " " << (st.ok() ? d : std::string("undecodable")) << "\n"; }
